@@ -116,3 +116,64 @@ PLANS.update({
                    "as C01 with a clean-up-heavy mix: clean_up and clean_up_addr_range with ranges that are empty/reversed, a single page, exactly one level-1/2/3 table, unaligned, spanning the canonical gap, ending at the last page, the whole space; half of the clean-ups are repeated immediately; freed set D must satisfy InsideEmpty <= D <= OverlapEmpty, each frame once, unlinked before release, translations unchanged, second call frees nothing; distinct = distinct (operation, arguments)",
                    ["MC_PT_t1.cfg"], ["MC_PT_tiny.cfg"]),
 })
+
+
+CPU_ASSUME = [
+    "privileged instructions executed by the compiled wrappers trap in ring 3 (#GP -> SIGSEGV, #UD -> SIGILL); the harness's decoder reports mnemonic and operand registers / memory operand exactly as the CPU would have seen them and resumes after the instruction (an undecodable instruction is a tool error, never skipped)",
+    "instruction formats and operand meaning in Cpu.tla are transcribed from the Intel SDM / AMD APM (INVLPGB count = number of additional pages)",
+    "both build profiles are run: the inline-asm operand constraints and options are only meaningful in the compiled code",
+    "TLC, CommunityModules and the harness's logging are trusted",
+]
+
+
+def cpu_plan(family, n_quick, n_thorough, rule, design=(), extra_runs=(), exhaustive=False, exhaustive_note=None):
+    def mk(tier, seed):
+        n = n_quick if tier == "quick" else n_thorough
+        runs = []
+        seeds = [seed] if tier == "quick" else [seed, seed + 11, seed + 22]
+        for sd in seeds:
+            for prof in ("dev", "rel"):
+                runs.append({"name": "%s%d" % (family, sd), "prof": prof,
+                             "args": [family, "--seed", str(sd), "--n", str(n)]})
+        for er in extra_runs:
+            runs.append(er(tier, seed))
+        return {"design": [dict(d) for d in design], "runs": runs, "trace_module": "Trace_Cpu",
+                "level": "model_checking", "rule": rule, "assumptions": CPU_ASSUME,
+                "exhaustive": exhaustive, "exhaustive_note": exhaustive_note,
+                "replay_lines": cpu_replay_lines}
+    return mk
+
+
+def cpu_replay_lines(unknown, lines):
+    out = []
+    for e in unknown[:8]:
+        tr = open(e["_trace"]).read().split("\n")
+        n = e["_line"]
+        if e.get("op") in ("enable", "disable", "are_enabled", "enable_and_hlt", "wi_enter", "body", "body_end", "wi_exit"):
+            start = n
+            while start > 1 and '"op":"reset"' not in tr[start - 1]:
+                start -= 1
+            out += tr[start - 1:n]
+        else:
+            out.append(tr[n - 1])
+    return out
+
+
+def c11_pt_run(tier, seed):
+    return {"name": "pt_tokens_%d" % seed, "prof": "dev", "trace_module": "Trace_PT",
+            "args": ["pt", "--prop", "default", "--mode", "mapped,offset", "--seed", str(seed + 5),
+                     "--n", "3000" if tier == "quick" else "30000"], "vtimeout": 3600}
+
+
+PLANS.update({
+    "C18": cpu_plan("ports", 0, 0,
+                    "ALL 65536 port numbers x widths 8/16/32 x {Port read, Port write, PortReadOnly read, PortWriteOnly write}, 256 ports per event, in debug and release builds; every access is trapped (in/out #GP in ring 3): instruction count, opcode width (EC/ED/EE/EF, 66 prefix), DX, AL/AX/EAX and the returned value are compared; u8 writes use all 256 values, u16/u32 a boundary lattice; device values are distinguishable per (port, width, sequence); 2000 random equality/clone probes; distinct = distinct (kind, width, block)",
+                    exhaustive=True,
+                    exhaustive_note="ports x widths x access kinds enumerated completely; values: all 256 for u8, lattice for u16/u32"),
+    "C17": cpu_plan("intr", 30000, 400000,
+                    "programs = ALL statement trees with <= 4 (thorough: 5) nodes over {enable, disable, are_enabled, enable_and_hlt, without_interrupts(body), enable;...;disable} x both initial flag states, plus seeded random programs to nesting depth 6, interpreted as nested closures around the real without_interrupts with distinct return values; cli/sti/hlt trap and drive the emulated IF, which rflags::read_raw overlays (hook H2); events at every program point carry the trapped instructions and the flag; distinct = distinct (event, instructions, flag)",
+                    design=({"module": "MC_Intr", "cfg": "MC_Intr.cfg", "workers": 4},)),
+    "C11": cpu_plan("flush", 4000, 60000,
+                    "tlb::flush on the canonical lattice + random; flush_all / MapperFlushAll::flush_all with CR3 contents incl. PCID bits; MapperFlush::flush for the 3 sizes; Pcid::new for all 65536 u16; flush_pcid for 4 kinds x boundary PCIDs (thorough: all 4096) x lattice addresses; InvlpgbFlushBuilder over 4KiB/2MiB ranges (empty, 1 page, multiples of count_max +-1, abutting the gap, spanning the gap, upper half, near the top) x count_max in {0,1,2,3,7,8,255,4096,65535,random} x pcid/asid/global/final/nested combinations: every trapped invlpg/invpcid/invlpgb/tlbsync/mov-cr3 operand is decoded by the specification; plus a page-table run whose every successful call must return a token naming the argument page; distinct = distinct (operation, arguments)",
+                    extra_runs=(c11_pt_run,)),
+})
